@@ -464,9 +464,11 @@ impl SingleHashAggregateStream {
                             ));
                         };
                         if hash_table.building_group_count() == 0 {
-                            return Self::break_with_internal_err(
+                            // Nothing to spill: the memory limit is too small for this
+                            // operator, which is resource exhaustion and not a bug
+                            return Self::break_with_err(e.context(
                                 "Single hash aggregate ran out of memory with no aggregated groups",
-                            );
+                            ));
                         }
                         return ControlFlow::Continue(
                             SingleHashAggregateState::Spilling {
